@@ -111,6 +111,16 @@ Theorem range_slice_of_unranged : forall (pg : page) (ae : N) (v : bytes) (more 
     w_content_length part = N.of_nat (length (w_body part)).
 Proof. exact ranged_is_slice_of_unranged. Qed.
 
+(** Tiling on the connection: consecutive ranged GETs that tile the (encoded) representation of an Accept-Encoding
+    class are all answered and the concatenation of their bodies is that representation — in every cache state. *)
+Theorem range_conn_tiling : forall (checked caching : bool) (pg : page) (cache : option page) (ae : N) (ws : list N),
+  page_fits pg -> cache_ok pg cache ->
+  Forall (fun w => 0 < w) ws -> sumN ws = N.of_nat (length (rp_body (choose pg ae))) ->
+  exists replies,
+    serve_history checked caching 200 pg cache (map (get_range ae) (tile_ranges 0 ws)) = Ok replies /\
+    concat (map wbody replies) = rp_body (choose pg ae).
+Proof. exact conn_tiling. Qed.
+
 (** "...of the representation that a request without Range would receive": in every state of the server the
     reply to a request is the property's function [ranged_of] of the reply that the same request without any
     Range line receives in that state (416 for start > end; a 304 stays that 304; otherwise range_spec of the
@@ -193,6 +203,15 @@ Example range_conn_ex_cached_state :
   fst (rstep false true 404 ex_page (Some ex_page) {| rq_method := GET; rq_ae := 1; rq_ranges := [B "bytes=0-3"]; rq_ims := 0 |})
   = Ok (WResp {| w_status := 404; w_content_range := Some (B "bytes 0-3/12"); w_content_length := 4;
                  w_content_encoding := Some (B "gzip"); w_accept_ranges := false; w_body := B "GZIP" |}).
+Proof. vm_compute. reflexivity. Qed.
+Example range_conn_ex_tiling :
+  serve_history true true 200 ex_page None (map (get_range 1) (tile_ranges 0 [5; 1; 6]))
+  = Ok [ WResp {| w_status := 206; w_content_range := Some (B "bytes 0-4/12"); w_content_length := 5;
+                  w_content_encoding := Some (B "gzip"); w_accept_ranges := false; w_body := B "GZIPP" |};
+         WResp {| w_status := 206; w_content_range := Some (B "bytes 5-5/12"); w_content_length := 1;
+                  w_content_encoding := Some (B "gzip"); w_accept_ranges := false; w_body := B "E" |};
+         WResp {| w_status := 206; w_content_range := Some (B "bytes 6-11/12"); w_content_length := 6;
+                  w_content_encoding := Some (B "gzip"); w_accept_ranges := false; w_body := B "DBYTES" |} ].
 Proof. vm_compute. reflexivity. Qed.
 Example range_conn_ex_conditional :
   get_or_head (rq_method ex_conditional) = true /\ fresh ex_conditional = true /\ rejected (rq_range ex_conditional) = false.
